@@ -264,3 +264,52 @@ func evName(v ssa.Value) string {
 	}
 	return "?"
 }
+
+// entryRead returns what the first read of Session.state on the trace is known to have returned
+// (after all tests of that read), and whether there was a read at all.
+func (s *sess) entryRead(t *an.Trace) (an.StateSet, bool) {
+	var first ssa.Value
+	set := s.m.AllStates
+	found := false
+	for _, e := range t.Events {
+		if e.Kind == "state" && !found {
+			return s.m.AllStates, false // an own write precedes every read
+		}
+		if e.Kind != "guard" {
+			continue
+		}
+		if first == nil {
+			first = e.ReadVal
+			found = true
+		}
+		if e.ReadVal == first {
+			set = e.Read
+		}
+	}
+	return set, found
+}
+
+// unmarshalOutcome returns "ok", "fail", "" (not branched) or "none".
+func unmarshalOutcome(t *an.Trace) (string, *an.Event) {
+	for i, e := range t.Events {
+		if e.Kind == "unmarshal" {
+			return e.Outcome, &t.Events[i]
+		}
+	}
+	return "none", nil
+}
+
+// returnsTrue reports whether the root function of the trace returns the constant true.
+func returnsTrue(t *an.Trace) bool {
+	for i := len(t.Events) - 1; i >= 0; i-- {
+		if t.Events[i].Kind == "return" && t.Events[i].Depth == 0 {
+			return t.Events[i].Ret == "true"
+		}
+	}
+	return false
+}
+
+func countKind(t *an.Trace, kind string) int { return len(eventsOf(t, kind)) }
+
+// rawReject reports whether the trace contains the raw-bytes reject (RejectMessage spliced in): a ValueByTag lookup followed by a Reject send.
+func isRejectSend(e an.Event) bool { return e.Kind == "send" && len(e.Kinds) == 1 && e.Kinds[0] == "Reject" }
